@@ -33,6 +33,8 @@ Definition chk_C20 (c o : value) : bool :=
   | VL [VI 1; VI enc; a; b] => as_bool enc && veqb a b
   | VL [VI 2; VI enc; a; b] => as_bool enc && veqb a b
   | VL [VI 5; VI calls; VI http; VI live] => (calls =? 0) && (http =? 0) && (live =? 0)
+  | VL [VI 8; VI before; VI clear; VI tls; VI calls] => (clear =? 0) && (tls =? 1) && (calls =? before + 1)      (* configured while already serving *)
+  | VL [VI 7; VI reqs; VI calls; VI answered; VI live] => (calls =? reqs) && (answered =? reqs) && (live =? 0)      (* a long life of one server *)
   | VL [VI 4; VI still; VI enc; VI calls] => (still =? 0) && (enc =? 0) && (calls =? 0)
   | VL [VI 3; VI ntls; VI nenc; VI live; VI http; VI calls; VI answered] =>
       (nenc =? ntls) && (live =? 0) && (http =? 0) && (calls =? ntls) && (answered =? ntls)
@@ -50,10 +52,13 @@ Definition chk_tlsraw (c o : value) : bool :=
       as_bool hs && veqb a b &&
       (if as_bool expect && (ending <=? 1)
        then match a with
-            | VL [VI calls; VI st; VB body; VI e] =>
+            | VL [VI calls; VI st; VB body; VI e; VI notified; VI stalled] =>
                 (* the answer arrives whole and the connection is shut in an orderly way, not reset - also when the client
                    sent more than its request *)
-                (calls =? 1) && (st =? 200) && (beq body (B "ok") || beq body (B "len=3145728")) && (e =? 0)
+                (calls =? 1) && (st =? 200) && (beq body (B "ok") || beq body (B "len=3145728") || (Z.of_nat (List.length body) =? 3000)) && (e =? 0) &&
+                (* write-progress notifications add up to the body written (C18), whatever the transport; no event handler keeps
+                   the server's thread away from its event loop while a client reads slowly (C11) *)
+                ((notified =? -1) || (notified =? 3000)) && negb (as_bool stalled)
             | _ => false
             end
        else true)
